@@ -123,6 +123,13 @@ func (n *Net) Heal() {
 	n.rules = nil
 }
 
+// ClearLinks removes the static link faults (partitions, loss, delay) but keeps the rules and their gates.
+func (n *Net) ClearLinks() {
+	n.mu.Lock()
+	defer n.mu.Unlock()
+	n.links = map[[2]string]*Link{}
+}
+
 // Partition blocks all links between the two groups (both directions).
 func (n *Net) Partition(a, b []string) {
 	n.mu.Lock()
